@@ -24,5 +24,6 @@ func All() map[string]core.Prop {
 		"C17": C17{},
 		"C18": C18{},
 		"C19": C19{},
+		"C20": C20{},
 	}
 }
